@@ -64,6 +64,38 @@ def reference_text(v, eff):
         return default_render_to_str(list(python_to_sdocs(v, **eff)))
 
 
+class ListStream(list):
+    """a stream that is an (at first empty, hence falsy) list of the chunks written to it"""
+    write = list.append
+
+    def getvalue(self):
+        return ''.join(self)
+
+
+class CountingStream:
+    """a stream with a length: falsy until something has been written"""
+    def __init__(self):
+        self.parts = []
+
+    def write(self, s):
+        self.parts.append(s)
+
+    def __len__(self):
+        return sum(len(p) for p in self.parts)
+
+    def getvalue(self):
+        return ''.join(self.parts)
+
+
+_stream_turn = [0]
+
+
+def new_stream():
+    """the stream GIVEN to an entry point: StringIO, or an object that is falsy while empty"""
+    _stream_turn[0] += 1
+    return (io.StringIO, ListStream, CountingStream)[_stream_turn[0] % 3]()
+
+
 def call_entry(ep, v, args, end):
     import prettyprinter as P
     import colorful
@@ -72,11 +104,11 @@ def call_entry(ep, v, args, end):
         if ep == 'pformat':
             return P.pformat(v, **args)
         if ep == 'pprint':
-            s = io.StringIO()
+            s = new_stream()
             P.pprint(v, stream=s, end=end, **args)
             return s.getvalue()
         if ep == 'cpprint':
-            s = io.StringIO()
+            s = new_stream()
             mode = colorful.colorful.colormode
             colorful.disable()
             try:
@@ -87,7 +119,7 @@ def call_entry(ep, v, args, end):
         if ep == 'PrettyPrinter.pformat':
             return P.PrettyPrinter(**args).pformat(v)
         if ep == 'PrettyPrinter.pprint':
-            s = io.StringIO()
+            s = new_stream()
             P.PrettyPrinter(stream=s, end=end, **args).pprint(v)
             return s.getvalue()
         if ep == 'pretty_repr':
